@@ -42,6 +42,10 @@ func badKinds() []badKind {
 // c18File places the bad field below root Beta at the given position chain ("" = in Beta itself).
 func c18File(bk badKind, chainPos []string, sole bool) (*dsl.File, string, string) {
 	f := space.F5File()
+	// mappable roots whose names share a prefix with the failing root's name, declared before and after it
+	betaV2 := &dsl.Message{Name: "BetaV2", Fields: []*dsl.Field{{Name: "Title", Num: 1, T: dsl.String}, {Name: "Meta", Num: 2, T: dsl.Msg, Ref: "Shared"}}}
+	bet := &dsl.Message{Name: "Bet", Fields: []*dsl.Field{{Name: "Stake", Num: 1, T: dsl.Int64}}}
+	f.Messages = append(append([]*dsl.Message{betaV2}, f.Messages...), bet)
 	var beta *dsl.Message
 	for _, m := range f.Messages {
 		if m.Name == "Beta" {
@@ -160,7 +164,7 @@ func checkC18(r *Run) int {
 			chains = append(chains, []string{p, space.Positions[(i+3)%len(space.Positions)]})
 		}
 	}
-	others := [][]string{{"Alpha"}, {"Alpha", "Gamma", "Delta"}}
+	others := [][]string{{"Alpha"}, {"Alpha", "Gamma", "Delta"}, {"BetaV2", "Bet"}}
 	if r.Tier == "thorough" {
 		others = append(others, []string{"Gamma", "Delta"})
 	}
